@@ -224,6 +224,11 @@ Error BaseAssembler::embed_const_pool(const Label& label, const ConstPool& pool)
     return report_error(make_error(Error::kInvalidLabel));
   }
 
+  // Check before aligning so a failed call appends no padding.
+  if (ASMJIT_UNLIKELY(_code->is_label_bound(label))) {
+    return report_error(make_error(Error::kLabelAlreadyBound));
+  }
+
   ASMJIT_PROPAGATE(align(AlignMode::kData, uint32_t(pool.alignment())));
   ASMJIT_PROPAGATE(bind(label));
 
